@@ -234,7 +234,8 @@ def qsOpt : Query → Option Text
   | .str q => if q = [] then none else some (quote Gen.querySafe q)
   | .pairs ps truthy => if ps = [] && !truthy then none else some (urlencode ps)
 
-def fragOpt (anchor : Text) : Option Text := if anchor = [] then none else some (quote Gen.anchorSafe anchor)
+def fragOpt (anchor : Text) (truthy : Bool := false) : Option Text :=
+  if anchor = [] && !truthy then none else some (quote Gen.anchorSafe anchor)
 
 theorem qsOf_eq (q : Query) : qsOf q = optPre '?' (qsOpt q) := by
   cases q with
@@ -243,7 +244,7 @@ theorem qsOf_eq (q : Query) : qsOf q = optPre '?' (qsOpt q) := by
   | str q => simp only [qsOf, qsOpt]; split <;> rfl
   | pairs ps t => simp only [qsOf, qsOpt]; split <;> rfl
 
-theorem fragOf_eq (a : Text) : fragOf a = optPre '#' (fragOpt a) := by
+theorem fragOf_eq (a : Text) (tr : Bool) : fragOf a tr = optPre '#' (fragOpt a tr) := by
   simp only [fragOf, fragOpt]; split <;> rfl
 
 theorem pctScan_map (ok ok' : Char → Bool) (f : Char → Char) (hp : ∀ c, (f c = '%') ↔ (c = '%'))
@@ -346,7 +347,7 @@ theorem qsOpt_wf (g : GenFacts) (q : Query) (t : Text) (h : qsOpt q = some t) : 
     split at h <;> simp at h
     subst h; exact urlencodeWith_wf _ g.plus ps
 
-theorem fragOpt_wf (g : GenFacts) (a t : Text) (h : fragOpt a = some t) : pctWF isQueryC t = true := by
+theorem fragOpt_wf (g : GenFacts) (a : Text) (tr : Bool) (t : Text) (h : fragOpt a tr = some t) : pctWF isQueryC t = true := by
   simp only [fragOpt] at h
   split at h <;> simp at h
   subst h; exact pctWF_quote _ _ g.anchor unres_query _
